@@ -359,6 +359,20 @@ MissingClauses(S) ==
                             : n \in {m \in names : u.pkg[m].exists}}
   IN reqMissingAll \cup conMissing \cup lockMissing \cup exclMissing
 
+\* Completeness of the at-most-one encoding (AtMostOne!Excl on the real clause stream):
+\* any two solvable variables of one package that are candidates of some requirement
+\* clash on a helper variable - one is forced to set it, the other to clear it - whether
+\* or not this run needed that
+ForbidRecs == {c \in ClauseRecs : c.kind = "forbid"}
+HelperLits(FR, v) == UNION {LitSet(c.lits) \ {<<v, 0>>} : c \in {d \in FR : d.a = v}}
+UnexcludedPairs ==
+  LET FR == ForbidRecs
+      cv == UNION {Range(Concat(c.cands)) : c \in {d \in ClauseRecs : d.kind = "requires"}}
+      hl == [v \in cv |-> HelperLits(FR, v)]
+  IN {pr \in cv \X cv : /\ pr[1] < pr[2]
+                        /\ NameOf(u, SolvOfVar(pr[1])) = NameOf(u, SolvOfVar(pr[2]))
+                        /\ ~\E x \in hl[pr[1]] : Neg(x) \in hl[pr[2]]}
+
 ResultSat(r) ==
   LET S    == Range(r.sol)
       X    == Range(p.soft)
@@ -391,6 +405,7 @@ ResultSat(r) ==
                     {i \in DOMAIN wb.cls : ~ClauseHolds(i)})
            /\ Chk("C05", SolvedVarsTrue = S, "C05_SolutionNotTrail", <<r.sol, SolvedVarsTrue>>)
            /\ Chk("C01", MissingClauses(S) = {}, "C01_EncodingIncomplete", MissingClauses(S))
+           /\ Chk("C15", UnexcludedPairs = {}, "C15_PairNotExcluded", UnexcludedPairs)
       ELSE TRUE)
   /\ Cover(<<"sat">> \o (IF cf /\ p.soft = <<>> THEN <<"conflictfree">> ELSE <<>>)
                      \o (IF dbf THEN <<"directbest">> ELSE <<>>)
